@@ -96,7 +96,7 @@ CLAIMS = {
  "C05": dict(text="Lean theorems over the canonical operator tables (proved equal by decide to the tables regenerated from pkg/reflectmath.go on every run): "
         "C05_int_arith / _exact (64-bit Go arithmetic, exact when the result fits), C05_div_real (/ is the real quotient), C05_promotion, C05_concat, C05_int_mod, "
         "C05_bitops, C05_logic, C05_ill_typed; over the from-scratch semantics the engine refines: C05_and/or_short_circuit, C05_parens, C05_neg_atom, "
-        "C05_args_in_order, C05_method_gets_args; C05_keyword_case. Grouping: the model's precedence-climbing parser is tied by decide to the generated "
+        "C05_args_in_order, C05_method_gets_args; C05_keyword_case; whitespace, comments and keyword case never change the parsed rules (C05_layout_independent, C05_case_and_layout_free, C05_keyword_any_case: lexer model + parser never reads fixed-token texts); the string built-ins Count/Index/LastIndex/Repeat/Replace/Trim/ToUpper/ToLower/Contains/HasPrefix/HasSuffix/In/Len are model functions validated on a receiver-kind x needle grid (Go field, map value, top-level, JSON member, constant, call result). Grouping: the model's precedence-climbing parser is tied by decide to the generated "
         "parser's precedence predicates, the grammar's operator rules and the published table (T2, C05_precedence_tied). Tie of lexer/parser/listener to "
         "the model: correspondence on re-rendered texts (all literal notations, spacing, comments, keyword case, redundant parentheses) with exact snapshot "
         "strings, three-way grouping check on flat operator chains, all-operator grid on pkg.Evaluate*.",
@@ -139,14 +139,14 @@ CLAIMS = {
  "C20": dict(text="PARTIAL. Proved over the Lean models: the payload allocation of LoadKnowledgeBaseFromReader on any byte string is at most its length plus one 64 KiB "
         "block (C20_grb_alloc_bounded over readAlloc/readMany, the model of readBytesFromReader/preallocCount; readAlloc_le, readAlloc_success), short streams "
         "allocate nothing (C20_grb_short), JSON nesting is cut at 1024 levels (C20_json_depth_guard), the GRL front end is a total function whose only "
-        "rule-bearing verdict is `accepted` (C20_grl_verdict_total; an out-of-range salience is a verdict, not a panic). Ties regenerated from the sources on every "
+        "rule-bearing verdict is `accepted` (C20_grl_verdict_total; an out-of-range salience is a verdict, not a panic), snapshots grow additively — a chain of n selectors adds O(n) characters (C20_selector_snapshot_additive, C20_selector_chain_linear; it was 2^n before fix d4abfaa). Ties regenerated from the sources on every "
         "run (T4, decide): the list of every make() with a data-dependent size in ast/Serializer.go, the loader's deferred recover, the blank-input guard, the depth "
         "guard constant, the salience guard. Everything else is validation, not proof: each loader runs in a child process (8 GiB address-space cap, wall-clock "
         "limit) on random bytes and structure-aware mutants (bit flips, length-field edits, truncation, splicing, boundary numbers, nesting bombs) of valid "
         "GRL / JSON-rule / JSON-fact / GRB inputs; process death, recovered panics, time and bytes allocated are compared with explicit budgets.",
         note="Runtime behaviour the model cannot exhibit and that is only validated: cost of the ANTLR runtime and generated parser, encoding/json, Go allocator and "
         "stack limits. Known findings F19a/F19b (super-linear time and memory of the GRL front end on deeply nested or long expressions) are printed as "
-        "KNOWN-FINDING on every run. Fixes 8ec1b87 (GRB allocations), 2e94e10 (salience panic), af5d32f (blank JSON) in /repo.",
+        "KNOWN-FINDING on every run. Fixes 8ec1b87 (GRB allocations), 2e94e10 (salience panic), af5d32f (blank JSON), d4abfaa (F20: exponential snapshot of chained selectors on a call result) in /repo.",
         tech="Lean 4 allocation-bound proof over the wire reader model + regenerated loader facts (decide ties) + sandboxed child-process validation with budgets", ref="5.C20"),
 }
 
